@@ -6,7 +6,7 @@ stats = []
 for f in sorted(glob.glob('/verif/seeded/*/meta.json')):
     m = json.load(open(f))
     runs = m['check_runs']
-    first = next((runs[k] for k in ('first', 'second', 'final') if runs.get(k)), None)
+    first = runs.get('first') if m['change'].split('-')[1][0] == 'p' else next((runs[k] for k in ('first', 'second', 'final') if runs.get(k)), None)
     last = next((runs[k] for k in ('final', 'second', 'first') if runs.get(k)), None)
     def v(r): return '—' if r is None else ('caught' if r['caught'] else 'missed')
     names = []
@@ -22,13 +22,15 @@ for f in sorted(glob.glob('/verif/seeded/*/meta.json')):
     by = ', '.join(names)
     conf = m['confirmed']
     ok = conf['existing_tests_pass_with_patch'] and conf['demo_fails_with_patch'] and conf['demo_passes_without_patch']
-    stats.append((2 if '-n' in m['change'] else 1, bool(first and first['caught']), bool(last and last['caught'])))
+    rn = 3 if '-p' in m['change'] else 2 if '-n' in m['change'] else 1
+    stats.append((rn, bool(first and first['caught']), bool(last and last['caught']), rn == 3 and runs.get('first') is None))
     rows.append('| %s | %s | %s | %s | %s | %s |' % (m['change'], m['needs_to_manifest'].replace('|', '/'), 'yes' if ok else 'no (see meta.json)', v(first), v(last), by.replace('|', '/')))
 def rnd(c): return 2 if '-n' in c else 1
-for r in (1, 2):
+for r in (1, 2, 3):
     rs = [x for x in stats if x[0] == r]
     if rs:
-        print('Round %d: %d changes; caught in the first run %d; caught now %d.' % (r, len(rs), sum(1 for x in rs if x[1]), sum(1 for x in rs if x[2])))
+        ne = sum(1 for x in rs if x[3])
+        print('Round %d: %d changes; caught in the first run %d%s; caught now %d.' % (r, len(rs), sum(1 for x in rs if x[1] and not x[3]), (' (of the %d evaluated in the first run)' % (len(rs) - ne)) if ne else '', sum(1 for x in rs if x[2])))
 print()
 print('| change | what it is and what it needs to manifest | confirmed | first run | now | caught by |')
 print('|---|---|---|---|---|---|')
